@@ -132,13 +132,16 @@ PROPS2 = {
     },
     "C33": {
         "level": "Event log: sample order of the capture process equals the consume order, schema order equals record layout (header first), decoder "
-        "pairing and arity, sampler site index/order in both modes, emit is context-sensitive and emits nothing when disabled, top-level emit registers the site.",
+        "pairing and arity, sampler site index/order in both modes with values normalised by the schema (evaluated for widths 0-4), emit is context-sensitive and emits nothing when "
+        "disabled, top-level emit registers the site, statics kept in their JSON form and tuple fields decoded to tuples, the debug wrapper of the generated route "
+        "only reads the design and records every site.",
         "undecided": "per-cycle faithfulness over histories.",
         "technique": T_PLUMB,
     },
     "C34": {
         "level": "Hardware logs and assertions: name<->level table, gated vs ungated trigger registration, assertions negated at ERROR level, simulation "
-        "process order and error path.",
+        "process order; on_error exactly when a reported record of the cycle has level >= ERROR and after all records of the cycle were reported; the formatter is "
+        "total over levels; reports known finding F40 (errors outside the display filter are not watched).",
         "undecided": "per-cycle exactness.",
         "technique": T_PLUMB,
     },
@@ -200,7 +203,8 @@ PROPS2 = {
         "level": "Complete transition relation of the manager's state (dependencies, cache, locked set): all 3 + 14 + 2 paths of add_dependency / "
         "get_optional_dependency / get_dependency: locked add raises and changes nothing, otherwise appends once and drops a cached value; a read locks exactly "
         "the lock_on_get keys on every path, absence test precedes cache and combine, cached value is the key's own entry, combine over all dependencies in "
-        "insertion order, cache filled exactly for caching keys; SimpleKey (0 -> default, 1 -> it, more -> error), ListKey identity, UnifierKey not cached; "
+        "insertion order, cache filled exactly for caching keys; get_dependency decides 'missing' on the key, never on the value; SimpleKey (0 -> default, 1 -> it, "
+        "more -> error), ListKey returns a new list and is not cached, UnifierKey not cached; "
         "class flag table.",
         "undecided": "the induction over histories from the per-path obligations (paper step); user-defined key classes.",
         "technique": T_PATH,
@@ -208,7 +212,7 @@ PROPS2 = {
     "C43": {
         "level": "CallTrigger: one clock tick per trigger, every data-carrying call initialised before and disabled after it under the same test, sampled record "
         "(outputs, done) per call in order then plain values, result = outputs if done else None from the right slice; call = until_done over one-tick "
-        "triggers, call_try = one trigger; enable/disable/set_enable; MethodMock: disabled first and re-enabled last each tick, pending effects run exactly "
+        "triggers (until_done quantifies over the call entries only), call_try = one trigger; enable/disable/set_enable; MethodMock: disabled first and re-enabled last each tick, pending effects run exactly "
         "under done once each, list cleared and freeze reset before re-enable, outputs recomputed only when done and not frozen, inside the mock context with "
         "effects dropped first and written to data_in without an intervening tick; effect registration.",
         "undecided": "the simulator's scheduling semantics (which process observes what when).",
